@@ -3,6 +3,7 @@ C08 — QoS limits suffice and are enforced: no out-of-memory inside the limits,
 Theorems about the L1 publish-subscribe model `Iox2.PubSub` for every reachable state.
 -/
 import Iox2.Model.PubSub
+import Iox2.Proof.PubSubC08OpE
 namespace Iox2.PubSub.C08
 open Iox2.PubSub
 
